@@ -16,7 +16,7 @@ anything between); the read-partition cases of the `dumpload` stream compare `lo
 the implementation piece list by piece list.
 -/
 namespace Bclv.C09
-open Bclv
+open Bclv Bclv.Buf
 
 /-- Loading a dump gives back exactly the program. -/
 theorem load_dump (p : Prog) (h : p.WF) : load (dump p) = .ok p := by
